@@ -84,3 +84,22 @@ package shard
 //@   mode bv
 //@   ensures [corrupted_record_aborts_only_if_not_ignored] err != nil && resultOf(err, "(*object.Object).Unmarshal") ==> !ignoreErrors
 //@   ensures [expired_or_removed_objects_do_not_abort] err != nil && resultOf(err, "(*shard.Shard).Put") ==> !expiredClass(err) && !errIs(err, apistatus.ErrObjectAlreadyRemoved)
+
+// ---- C14: in every function of the shard, a call that changes the metabase, the blobstor
+// or the write-cache happens only on a path where the shard's mode was found writable:
+// Mode.ReadOnly() answered false, or the mode field equals ReadWrite. The mode is written only
+// by setMode under the exclusive lock; the operations hold the lock for reading.
+
+//@ ghost pred writableMode() bool
+
+//@ callrule c14_mode_answer in *
+//@   property C14
+//@   callee (mode.Mode).ReadOnly
+//@   pureeffect
+//@   defines !result ==> writableMode()
+
+//@ callrule c14_writes_only_in_writable_mode in *, !(*Shard).Init, !(*Shard).initMetabase*, !(*Shard).refillMetabase*, !(*Shard).resyncObjectHandler*, !(*Shard).Reload*, !(*Shard).setMode*
+//@   property C14
+//@   immutable Shard.cfg, Info.Mode
+//@   callee (*metabase.DB).PutCounted, (*metabase.DB).Put, (*metabase.DB).Delete, (*metabase.DB).DeleteContainer, (*metabase.DB).InhumeContainer, (*metabase.DB).MarkGarbage, (*metabase.DB).ReviveObject, (common.Storage).Put, (common.Storage).PutBatch, (common.Storage).Delete, (writecache.Cache).Put, (writecache.Cache).Delete, (writecache.Cache).Flush
+//@   requires [modifying_call_only_in_writable_mode] writableMode() || s.info.Mode == mode.ReadWrite
